@@ -55,6 +55,8 @@ pub fn make_case(seed: u64, tier: Tier, idx: u64, scope: &SmallScope) -> Case {
     assign_random_shapes(&mut model, &mut rng, 0.5);
     if rng.chance(0.5) {
         shuffle_names(&mut model, &mut rng);
+    } else if rng.chance(0.08) {
+        prelude_names(&mut model, &mut rng);
     }
     if rng.chance(0.25) {
         // attributes (they travel inside the validated grammar attached to a conflict error)
